@@ -27,7 +27,7 @@ from props import c07_stage2
 EXTRACTORS = ["Notation", "Elab"]
 # Props/C07Stage2.lean: the shorthands that live at stage 2/3 (ellipsis = repetition, number = fresh axis, scalar = tuple,
 # anonymous = named ellipsis), proved on the C02 solving model; tied by the stream of props/c07_stage2.py
-EXTRA_PROPS = ["C07Stage2"]
+EXTRA_PROPS = ["C07Stage2", "C07Names"]   # C07Names: namesOK / freshVars / renOK derived from the syntactic condition plainNames
 
 FAMILY_OPS = {
     "id": ["id"],
